@@ -1,13 +1,18 @@
 """C05 — verdict aggregation is fail-safe and independent of solver timing.
 
-Obligations: T-verdict, T-solvedispatch, Props/C05.vo, lint.
+Obligations: T-verdict, T-solvedispatch, T-unsatcore, T-coreappend, Props/C05.vo, lint.
 Ties (real halmos code vs extracted model vs an independent Python rendering of the spec):
   X1  SolverOutput.from_result on generated stdout strings                         (L1)
   X2  CounterexampleHandler._get_solver_output on fabricated futures               (L1)
+  X2b check_unsat_cores on generated id lists; _solve_end_to_end_callback's decision to append
+      a core to the shared list (result class x core None / empty / non-empty x shutdown)  (L1)
   X3  solve_end_to_end / solve_low_level with the scripted solver as a subprocess  (L2)
   X4  `python -m halmos` end to end on fabricated projects, scripted solver: path kinds x
       reply kinds x completion orders x --early-exit x --cache-solver; printed status,
-      JSON exit codes, process exit code, path counters                            (L3)
+      JSON exit codes, process exit code, path counters; under --cache-solver also the shape of
+      the unsat core in the reply (all names / a shared prefix / empty list / none), one solver
+      thread (answers consumed strictly in submission order) vs all queries started first, and
+      which queries never reached the solver (answered from the shared core list)     (L3)
   X5  several tests / failing setUp / no test selected: process exit code          (L3)
 """
 import itertools
@@ -21,11 +26,11 @@ from pathlib import Path
 
 from harness import c05_e2e as e2e
 from harness import common
-from harness.c05_fake_solver import reply_text
+from harness.c05_fake_solver import UNSAT_KINDS, core_names, reply_text
 from harness.common import Model
 
 PID = "C05"
-TRANSLATORS = ["T-verdict", "T-solvedispatch"]
+TRANSLATORS = ["T-verdict", "T-solvedispatch", "T-unsatcore", "T-coreappend"]
 
 # Genuine defects of halmos found by this check (see the final report / DESIGN 6, F8).
 KNOWN = common.known_for("C05")  # entries live in /verif/known_findings.json
@@ -34,12 +39,18 @@ PARTIAL = ("Thread timing is replaced by forced orders (per-query delays, one st
            "ThreadPoolExecutor guarantee that done-callbacks have run when shutdown(wait=True) returns is assumed. A solver kill "
            "during the synchronous stuck-path solve and a Popen failure there are not separate model steps (the first can only "
            "happen after a valid counterexample was recorded, where the verdict is FAIL whatever the stuck count; the second is the "
-           "same uncaught-exception mechanism as the recorded finding).")
+           "same uncaught-exception mechanism as the recorded finding). --cache-solver: the order in which worker threads consult the "
+           "shared core list is forced (one solver thread: strictly in submission order; default threads + delays: all queries started "
+           "first); otherwise the implementation's verdict must be among the model's results over both families of schedules. A model "
+           "refinement (second solver call) together with the cache is covered at function level (X3) but not end to end.")
 ASSUMPTIONS = [
     "done-callbacks of the thread pool futures have completed when ThreadPoolExecutor.shutdown(wait=True) returns (CPython semantics)",
     "list.append from solver threads is atomic (CPython GIL); the verdict chain reads solver_outputs only after the pool has been joined",
     "the truthful answer of a query does not depend on when it is asked (the scripted solver is a function of the query file name)",
     "the extracted model and driver are faithful to the Coq definitions (extraction is trusted)",
+    "--cache-solver: the solver honours its own non-empty unsat cores (it answers unsat on every potential-violation query that contains one; "
+    "hypothesis of C05_cache_refines, stated in the theorem); an empty core list carries no such promise. Cases whose script breaks this are compared with the model only",
+    "--cache-solver: one worker thread (--solver-threads 1) runs solve_end_to_end and the done-callback of a query before it starts the next one (CPython ThreadPoolExecutor)",
 ]
 
 LABELS = ["PASS", "FAIL", "ERROR", "TIMEOUT"]
@@ -47,6 +58,8 @@ KIND_CODE = {"success": 0, "revert": 1, "panic": 2, "failflag": 3, "stuck": 4}
 POTENTIAL = ("panic", "failflag")
 ASYNC_REPLIES = ["sat", "rc1_sat", "sat_nomodel", "sat_invalid", "sat_badmodel", "unsat", "unsat_rc1", "unsat_cr",
                  "unknown", "hang", "garbage", "empty", "crash"]
+# `unsat` replies that differ only in the unsat core they print under --cache-solver
+CORE_REPLIES = ["unsat_core0", "unsat_core1", "unsat_core2", "unsat_nocore"]
 
 
 # ----------------------------------------------------------------- independent spec (python)
@@ -57,7 +70,7 @@ def spec_answer(kind, refined=None):
         return "sat"
     if kind == "sat_invalid":
         return "sat" if refined is None else spec_answer(refined)
-    if kind in ("unsat", "unsat_rc1", "unsat_cr"):
+    if kind in UNSAT_KINDS:
         return "unsat"  # unsat_cr: "unsat\r\n" reaches halmos as "unsat\n" (the pipe is read in text mode)
     if kind in ("unknown", "hang"):
         return "unknown"
@@ -112,12 +125,12 @@ def case_answers_calls(case):
     return calls
 
 
-def schedules(case, n, raises=()):
+def schedules(case, n, raises=(), by_delay=True):
     """event lists the model is run on: all main steps then callbacks by completion time;
     plus, under --early-exit, for every stuck path k the schedule in which the callbacks of
     earlier queries run between the flag check and the body of path k.  The body step of a
     stuck path whose synchronous solve raises (model: solve_low_level = None) is EvMainRaise (-2)."""
-    order = sorted(range(n), key=lambda j: (case.get("delays", {}).get(str(j), 0), j))
+    order = sorted(range(n), key=lambda j: (case.get("delays", {}).get(str(j), 0) if by_delay else 0, j))
     mains = []
     for k in range(n):
         mains += [-1, -2 if k in raises else -1]
@@ -127,6 +140,110 @@ def schedules(case, n, raises=()):
         for k, kind in enumerate(case["paths"]):
             if kind == "stuck":
                 out.append((f"stale@{k}", mains[:2 * k + 1] + [j for j in order if j < k] + mains[2 * k + 1:] + order))
+    return out
+
+
+# ----------------------------------------------------------------- the unsat-core cache
+
+def sym_ids(n, j):
+    """Names (small naturals) of the assertions in the query of path_id j of the fabricated n-path
+    test: 0 = the balance assumption, 1+i = `x != i`, 100+i = `x == i`.  halmos explores the
+    fall-through branch first, then the jump targets from the last comparison backwards, so path 0
+    carries every `!=`, path j>0 the first n-1-j of them and `x == n-1-j`.  Checked against the
+    dumped query files of every run (check_ids)."""
+    if j == 0:
+        return [0] + [1 + i for i in range(n - 1)]
+    return [0] + [1 + i for i in range(n - 1 - j)] + [100 + (n - 1 - j)]
+
+
+def check_ids(case, named, test="check_p"):
+    """the dumped queries name their assertions as sym_ids predicts (up to renaming)."""
+    n = len(case["paths"])
+    ren = {}
+    for f, names in named.items():
+        d, _, base = f.rpartition("/")
+        if d != test or not base.endswith(".smt2") or ".refined" in base:
+            continue
+        want = sym_ids(n, int(base[:-5]))
+        if len(names) != len(want):
+            return f"{f}: {len(names)} named assertions, expected {len(want)}"
+        for a, b in zip(names, want):
+            if ren.setdefault(a, b) != b:
+                return f"{f}: assertion name {a} stands for {ren[a]} and {b}"
+    if len(set(ren.values())) != len(ren):
+        return "two assertion names for one condition"
+    return None
+
+
+def final_reply(case, j):
+    r1 = case["replies"].get(str(j))
+    r2 = case.get("refined", {}).get(str(j))
+    return r2 if (case.get("mul") and r1 == "sat_invalid" and r2 is not None) else r1
+
+
+def reply_core(case, j):
+    """core list parsed from the final reply for the query of path j (None: no list / not unsat)."""
+    k = final_reply(case, j)
+    if not case.get("cache") or k not in UNSAT_KINDS:
+        return None
+    return core_names(k, sym_ids(len(case["paths"]), j))
+
+
+def core_consistent(case, answers):
+    """the hypothesis of C05_cache_refines on the scripted solver: every potential-violation query that
+    contains a non-empty core reported for another one is itself answered unsat."""
+    paths = case["paths"]
+    n = len(paths)
+    pot = [j for j, k in enumerate(paths) if k in POTENTIAL]
+    for p in pot:
+        c = reply_core(case, p) if answers[p] == "unsat" else None
+        if not c:
+            continue
+        for q in pot:
+            if set(c) <= set(sym_ids(n, q)) and answers[q] != "unsat":
+                return False
+    return True
+
+
+def enc_olist(c):
+    return [-1] if c is None else [len(c)] + list(c)
+
+
+def cache_events(sched, pot, mode):
+    """plain schedule (main steps < 0, callback of path j = j) -> events of the cache model
+    (CStart j = 2j, CCb j = 2j+1).  mode `seq`: the worker enters solve_end_to_end right before its
+    callback runs (one worker thread: as late as possible); mode `eager`: right after the main
+    loop has submitted the query (a free worker thread for every query)."""
+    ev, mains = [], 0
+    for e in sched:
+        if e < 0:
+            ev.append(e)
+            mains += 1
+            if mode == "eager" and mains % 2 == 0 and (mains // 2 - 1) in pot:
+                ev.append(2 * (mains // 2 - 1))
+        else:
+            if mode == "seq":
+                ev.append(2 * e)
+            ev.append(2 * e + 1)
+    return ev
+
+
+def cache_run_calls(case, codes, raises):
+    """(name, model call) for every schedule the implementation may have followed."""
+    paths = case["paths"]
+    n = len(paths)
+    pot = {j for j, k in enumerate(paths) if k in POTENTIAL}
+    enc = []
+    for j, k in enumerate(paths):
+        enc += [KIND_CODE[k], codes[j]] + enc_olist(sym_ids(n, j)) + enc_olist(reply_core(case, j) if codes[j] == 2 else None)
+    head = [1 if case.get("cache") else 0, 1 if case.get("ee") else 0, n] + enc
+    out = []
+    for name, sched in schedules(case, n, raises, by_delay=False):
+        out.append((f"seq/{name}", ("c05_crun", head + cache_events(sched, pot, "seq"))))
+    if case.get("threads") != 1:
+        for name, sched in schedules(case, n, raises):
+            out.append((f"eager/{name}", ("c05_crun", head + cache_events(sched, pot, "eager"))))
+            out.append((f"seq-by-delay/{name}", ("c05_crun", head + cache_events(sched, pot, "seq"))))
     return out
 
 
@@ -165,11 +282,12 @@ def run_case(case):
             e2e.make_project(d, case["paths"], mul=case.get("mul", False), tests=tests, setup=case.get("setup", False))
             r = e2e.run_halmos(d, script_of(case, tests), early_exit=case.get("ee", False), cache_solver=case.get("cache", False),
                                timeout_ms=(2500 * (attempt + 1)) if hang else 300000, stale_read=case.get("stale"),
-                               extra=case.get("extra", ()), wall=900)
+                               extra=case.get("extra", ()), wall=900, threads=case.get("threads"))
         finally:
             shutil.rmtree(d, ignore_errors=True)
         ended = {c[0] for c in r["calls"] if c[2] == "end"}
-        res = {"rc": r["rc"], "status": r["status"], "json": r["json"], "calls": [c[:3] for c in r["calls"]], "log_tail": r["log"][-1500:], "attempt": attempt}
+        res = {"rc": r["rc"], "status": r["status"], "json": r["json"], "calls": [c[:3] for c in r["calls"]], "log_tail": r["log"][-1500:], "attempt": attempt,
+               "named": r.get("named", {})}
         last = res
         starved = []
         if hang and not case.get("ee"):
@@ -257,6 +375,31 @@ def gen_cases(tier, r):
     # a stuck path whose solver answer makes solve_low_level raise (unparsable model), next to a real counterexample (F8b)
     cases.append(mk(["panic", "stuck", "success"], {0: "sat", 1: "sat_badmodel"}))
     cases.append(mk(["stuck", "success"], {0: "sat_badmodel"}))
+    # --cache-solver: the shared list of unsat cores makes the answer to a query depend on which callbacks ran
+    # before its worker started.  threads=1: answers are consumed strictly in submission order (every earlier core
+    # is visible to every later query); default threads + a delay on the early answers: the opposite order.
+    #  - an `unsat` answer with an EMPTY core next to a real counterexample, in both submission orders
+    cases.append(mk(["panic", "panic", "success"], {0: "unsat_core0", 1: "sat"}, cache=True, threads=1))
+    cases.append(mk(["panic", "failflag", "success"], {0: "sat", 1: "unsat_core0"}, cache=True, threads=1))
+    cases.append(mk(["failflag", "panic", "panic", "success"], {0: "unsat_nocore", 1: "unsat_core0", 2: "sat_invalid"}, cache=True, threads=1))
+    cases.append(mk(["panic", "panic", "success"], {0: "unsat_core0", 1: "crash"}, cache=True, threads=1, ee=True))
+    #  - a shared-prefix core: the later queries are answered from the cache (consistent script: they are unsat)
+    cases.append(mk(["panic", "failflag", "panic", "success"], {0: "unsat_core1", 1: "unsat", 2: "unsat_core2"}, cache=True, threads=1))
+    cases.append(mk(["panic", "failflag", "success"], {0: "unsat_core1", 1: "unsat"}, cache=True, delays={"0": 0.7, "1": 0}))
+    #  - the stuck-path solve neither reads nor feeds the cache
+    cases.append(mk(["panic", "stuck", "failflag", "success"], {0: "unsat_core1", 1: "sat", 2: "unsat"}, cache=True, threads=1))
+    #  - a solver that does not honour its own core (outside the theorem's hypothesis; model vs implementation only):
+    #    the second query never reaches the solver
+    cases.append(mk(["panic", "panic", "success"], {0: "unsat_core1", 1: "sat"}, cache=True, threads=1))
+    if tier != "quick":
+        cases.append(mk(["panic", "panic", "success"], {0: "unsat_core0", 1: "unknown"}, cache=True, threads=1))
+        cases.append(mk(["panic", "failflag", "success"], {0: "unsat_core2", 1: "unsat_nocore"}, cache=True, threads=1))
+        cases.append(mk(["stuck", "panic", "success"], {0: "unsat_core1", 1: "sat"}, cache=True, threads=1))
+        cases.append(mk(["panic", "failflag", "success"], {0: "unsat_core2", 1: "unknown"}, cache=True, threads=1))
+        for a, b in itertools.product(["unsat_core0", "unsat_core1", "unsat_core2", "unsat_nocore", "unsat"], ["sat", "sat_invalid", "unknown", "crash", "unsat", "unsat_core0"]):
+            cases.append(mk(["panic", "failflag", "success"], {0: a, 1: b}, cache=True, threads=1))
+            cases.append(mk(["failflag", "panic", "success"], {0: b, 1: a}, cache=True, threads=1))
+            cases.append(mk(["panic", "failflag", "success"], {0: a, 1: b}, cache=True, delays={"0": 0.7, "1": 0}))
     # forced schedule: stale read of the shutdown flag right before a stuck path (F8)
     cases.append(mk(["panic", "stuck", "success"], {0: "sat", 1: "sat"}, ee=True, stale=1))
     if tier != "quick":
@@ -284,13 +427,15 @@ def gen_cases(tier, r):
         n = r.choice([1, 2, 3, 3, 4, 4])
         ps = [r.choice(kinds + ["panic", "failflag", "stuck"]) for _ in range(n)]
         reps, delays = {}, {}
+        cache = r.random() < 0.5
         for j, k in enumerate(ps):
             if k in POTENTIAL or k == "stuck":
-                reps[j] = r.choice([x for x in ASYNC_REPLIES if x != "hang"] + ["unsat", "unsat", "sat"])
+                reps[j] = r.choice([x for x in ASYNC_REPLIES if x != "hang"] + ["unsat", "unsat", "sat"] + (CORE_REPLIES * 2 if cache else []))
                 if k in POTENTIAL and r.random() < 0.4:
                     delays[str(j)] = r.choice([0.2, 0.5, 0.8])
         ee = r.random() < 0.35
-        cases.append(mk(ps, reps, delays=delays, ee=ee, cache=r.random() < 0.4))
+        extra = {"threads": 1} if cache and r.random() < 0.6 else {}
+        cases.append(mk(ps, reps, delays=delays, ee=ee, cache=cache, **extra))
     return cases
 
 
@@ -399,6 +544,51 @@ def impl_get_solver_output(combos):
     return out
 
 
+def impl_check_unsat_cores(cases):
+    from halmos.sevm import SMTQuery
+    from halmos.solve import check_unsat_cores
+
+    return [bool(check_unsat_cores(SMTQuery("", [str(x) for x in ids]), [[str(x) for x in c0] for c0 in cores])) for ids, cores in cases]
+
+
+def impl_callback_append(cases):
+    """(shutdown, result kind, unsat_core) -> what the real _solve_end_to_end_callback leaves in the shared core list."""
+    import logging
+
+    from halmos.__main__ import CounterexampleHandler
+    from halmos.solve import SolverOutput
+    from z3 import sat, unknown, unsat
+
+    logging.disable(logging.CRITICAL)
+    out = []
+    wd = tempfile.mkdtemp(prefix="c05_cb_")
+    try:
+        for sh, kind, core in cases:
+            cached = []
+            ex = types.SimpleNamespace(is_shutdown=lambda sh=sh: bool(sh))
+            sctx = types.SimpleNamespace(executor=ex, dump_dir=Path(wd) / "q", unsat_cores=cached)
+            ctx = types.SimpleNamespace(
+                solving_ctx=sctx, args=types.SimpleNamespace(verbose=0, early_exit=False, cache_solver=True), solver_outputs=[],
+                valid_counterexamples=[], invalid_counterexamples=[], call_sequences={}, traces={},
+                append_unsat_core=lambda c0, cached=cached: cached.append(c0), info=types.SimpleNamespace(name="t"))
+            h = CounterexampleHandler(ctx=ctx, is_invariant=False, is_probe=False, flamegraph_enabled=False, potential_flamegraphs={}, submitted_futures=[])
+            f = Future()
+            res = {"unsat": unsat, "sat_nomodel": sat, "unknown": unknown, "err": "err"}[kind]
+            f.set_result(SolverOutput(res, 0, 7, str(Path(wd) / "q" / "7.smt2"), unsat_core=None if core is None else [str(x) for x in core]))
+            pc = types.SimpleNamespace(path_id=7, dump_file=Path(wd) / "q" / "7.smt2")
+            try:
+                h._solve_end_to_end_callback(f, ex=None, path_ctx=pc, description="")
+                out.append([[int(x) for x in c0] for c0 in cached])
+            except Exception as e:  # noqa: BLE001
+                out.append(f"EXC {type(e).__name__}: {e}")
+    finally:
+        logging.disable(logging.NOTSET)
+        shutil.rmtree(wd, ignore_errors=True)
+        for suffix in ("-error", "-timeout"):
+            shutil.rmtree(str(Path(wd) / "q") + suffix, ignore_errors=True)
+    return out
+
+
 def impl_solve_e2e(jobs, workdir):
     """jobs: dict(r1, r2, refinable, hit, cache, stuck) -> recorded answer code via the real
     solve_end_to_end / solve_low_level with the scripted solver as a real subprocess."""
@@ -481,8 +671,21 @@ def report_failing_input(rep, what, case, sig):
     rep.fail("failing-input", what, case=case, sig=sig)
 
 
+def _lap(what, t=[None]):
+    """section timing on stderr when C05_TIMING is set"""
+    import sys
+    import time
+
+    now = time.time()
+    if os.environ.get("C05_TIMING") and t[0] is not None:
+        sys.stderr.write(f"C05-TIMING {what}: {now - t[0]:.1f}s\n")
+    t[0] = now
+
+
 def run(rep, tier):
+    _lap("start")
     b = common.build_property(PID, TRANSLATORS)
+    _lap("translators + coq build")
     common.standard_obligations(rep, PID, b)
     exe = None
     if b["make_ok"]:
@@ -493,6 +696,7 @@ def run(rep, tier):
     m = Model(exe) if exe else None
     r = common.rng(PID)
 
+    _lap("driver build")
     # ---------------- X1 from_result
     stdouts = gen_stdouts(tier, r)
     impl = impl_from_result(stdouts)
@@ -516,6 +720,7 @@ def run(rep, tier):
             if nbad <= 5:
                 rep.fail("broken-tie", f"from_result({s[:60]!r}): implementation {code}, model {mres[i]}", case={"tie": "from_result", "stdout": s, "implementation": code, "model": mres[i]})
 
+    _lap("X1")
     # ---------------- X2 _get_solver_output
     combos = [(sh, k) for sh in (0, 1) for k in ("sat_valid", "sat_invalid", "unsat", "unknown", "err", "exc_shutdown", "exc_value", "exc_oserror9")]
     got = impl_get_solver_output(combos)
@@ -530,6 +735,41 @@ def run(rep, tier):
         elif mres is not None and mres[i][0] != g:
             rep.fail("broken-tie", f"_get_solver_output(shutdown={sh}, future={k}): implementation {g}, model {mres[i][0]}", case={"tie": "get_solver_output", "shutdown": sh, "future": k})
 
+    _lap("X2")
+    # ---------------- X2b the shared core list: check_unsat_cores, and what the callback appends to it
+    hit_cases = [([], []), ([1], []), ([], [[]]), ([1, 2], [[]]), ([1, 2], [[1]]), ([1, 2], [[3]]), ([1, 2], [[1, 3]]), ([1, 2], [[2, 1]]), ([1, 2], [[3], [2]]),
+                 ([1, 2, 3], [[1, 4], [3, 3]]), ([5], [[5, 5]]), ([1, 2], [[1, 2, 3]])]
+    for _ in range(60 if tier == "quick" else 1500):
+        ids = [r.randint(0, 5) for _ in range(r.randint(0, 4))]
+        hit_cases.append((ids, [[r.randint(0, 5) for _ in range(r.randint(0, 3))] for _ in range(r.randint(0, 3))]))
+    got = impl_check_unsat_cores(hit_cases)
+    mres = m.batch([("c05_hit", enc_olist(ids) + [len(cores)] + [x for c0 in cores for x in enc_olist(c0)]) for ids, cores in hit_cases]) if m else None
+    for i, ((ids, cores), g) in enumerate(zip(hit_cases, got)):
+        rep.case({"tie": "check_unsat_cores", "ids": ids, "cores": cores}, nontrivial=bool(cores))
+        spec = any(set(c0) <= set(ids) for c0 in cores)   # some cached core is contained in the query
+        if g and not spec:
+            # answering `unsat` without the solver is only justified by a cached core that the query contains
+            # (the other direction -- a missed hit -- costs a solver call, not a verdict: model comparison only)
+            rep.fail("failing-input", f"check_unsat_cores(ids={ids}, cores={cores}) = True although the query contains none of the cached cores: it would be answered unsat without asking the solver",
+                     case={"tie": "check_unsat_cores", "ids": ids, "cores": cores}, sig={"observable": "check_unsat_cores"})
+        elif mres is not None and mres[i] != [1 if g else 0]:
+            rep.fail("broken-tie", f"check_unsat_cores(ids={ids}, cores={cores}): implementation {g}, model {mres[i]}", case={"tie": "check_unsat_cores", "ids": ids, "cores": cores})
+    app_cases = [(sh, k, core) for sh in (0, 1) for k in ("unsat", "sat_nomodel", "unknown", "err") for core in (None, [], [5], [5, 7])]
+    got = impl_callback_append(app_cases)
+    mres = m.batch([("c05_append", [1 if (k == "unsat" and not sh) else 0] + enc_olist(None if sh else core)) for sh, k, core in app_cases]) if m else None
+    for i, ((sh, k, core), g) in enumerate(zip(app_cases, got)):
+        rep.case({"tie": "callback-append", "shutdown": sh, "result": k, "core": core}, nontrivial=True)
+        # an output enters the shared list iff it is a live `unsat` carrying a NON-EMPTY core: every later query that
+        # contains a cached core is answered unsat without a solver call, and every query contains the empty list
+        spec = [core] if (k == "unsat" and not sh and core) else []
+        if g != spec:
+            rep.fail("failing-input", f"callback on a {k} output (shutdown={sh}) with unsat_core={core} leaves {g} in the shared core list; expected {spec}"
+                     + (" -- an empty core is contained in every query: all later queries of the test would be answered unsat without asking the solver" if g == [[]] else ""),
+                     case={"tie": "callback-append", "shutdown": sh, "result": k, "core": core, "cached": g}, sig={"observable": "unsat-core-cache", "cached": "empty-core" if g == [[]] else "other"})
+        elif mres is not None and mres[i] != [1 if g else 0]:
+            rep.fail("broken-tie", f"callback append (shutdown={sh}, result={k}, core={core}): implementation appends {g}, model guard {mres[i]}", case={"tie": "callback-append", "shutdown": sh, "result": k, "core": core})
+
+    _lap("X2b")
     # ---------------- X3 solve_end_to_end / solve_low_level with a real subprocess
     jobs = []
     kinds3 = [k for k in ASYNC_REPLIES if k != "hang"]
@@ -581,11 +821,14 @@ def run(rep, tier):
             if not j["stuck"] and code == -1 and mres[i][0] != 4:
                 rep.fail("broken-tie", f"solve_end_to_end ({j}) raised; the model's callback records {mres[i][0]} instead of err", case={"tie": "solve_end_to_end", **j})
 
+    _lap("X3")
     # ---------------- X4 end to end
     cases = gen_cases(tier, r)
-    workers = 8 if tier == "quick" else 14
-    with ThreadPoolExecutor(workers) as ex:
-        results = list(ex.map(run_case, cases))
+    multi = gen_multi(tier, r)
+    workers = 12 if tier == "quick" else 14
+    with ThreadPoolExecutor(workers) as ex:   # X4 and X5 runs share one pool
+        results = list(ex.map(run_case, cases + multi))
+    results, mresults = results[:len(cases)], results[len(cases):]
     # truthful answers through the model (string level) and through the spec table
     ans_model = None
     if m:
@@ -597,6 +840,7 @@ def run(rep, tier):
         res = m.parallel_batch(flat)
         ans_model = [res[s:s + n] for s, n in spans]
     run_calls, run_index = [], []
+    crun_calls, crun_index = [], []
     for ci, c in enumerate(cases):
         n = len(c["paths"])
         if ans_model is None:
@@ -612,10 +856,17 @@ def run(rep, tier):
         for name, sched in schedules(c, n, raises):
             run_index.append((ci, name))
             run_calls.append(("c05_run", [1 if c.get("ee") else 0, n] + enc + sched))
+        if c.get("cache"):
+            for name, call in cache_run_calls(c, enc[1::2], raises):
+                crun_index.append((ci, name))
+                crun_calls.append(call)
     run_res = m.parallel_batch(run_calls) if m else []
     model_runs = {}
     for (ci, name), rr in zip(run_index, run_res):
         model_runs.setdefault(ci, {})[name] = rr
+    cache_runs = {}
+    for (ci, name), rr in zip(crun_index, m.parallel_batch(crun_calls) if m else []):
+        cache_runs.setdefault(ci, {})[name] = rr
     nbad = 0
     n_inconclusive = 0
     for ci, (c, res) in enumerate(zip(cases, results)):
@@ -639,31 +890,45 @@ def run(rep, tier):
         rep.count("spec_verdict", want)
         rep.count("n_paths", len(paths))
         rep.count("mode", ("early-exit" if c.get("ee") else "plain") + ("+cache" if c.get("cache") else "") + ("+stale-read" if c.get("stale") is not None else ""))
+        # under --cache-solver the specification speaks about solvers that honour their own (non-empty) cores
+        consistent = True
+        if c.get("cache"):
+            consistent = core_consistent(c, answers)
+            rep.count("cache_case", ("core-consistent script" if consistent else "solver does not honour its core (model vs implementation only)")
+                      + (", one solver thread" if c.get("threads") == 1 else ", default threads"))
+            for j, k in enumerate(paths):
+                if k in POTENTIAL and answers[j] == "unsat":
+                    rc = reply_core(c, j)
+                    rep.count("unsat_core_shape", "none" if rc is None else "empty" if not rc else "all names" if len(rc) == len(sym_ids(len(paths), j)) else "shared prefix")
+            bad_ids = check_ids(c, res.get("named", {}))
+            if bad_ids:
+                rep.fail("broken-tie", f"the dumped queries do not name their assertions as the harness assumes: {bad_ids}", case={"paths": paths, "named": res.get("named")})
         for j, k in enumerate(paths):
             rep.count("path_kind", k)
             if str(j) in c["replies"]:
                 rep.count("reply_kind", c["replies"][str(j)])
         short = {"paths": paths, "replies": c["replies"], "delays": c.get("delays"), "refined": c.get("refined"), "early_exit": bool(c.get("ee")),
-                 "cache_solver": bool(c.get("cache")), "stale_read": c.get("stale"), "implementation": obs, "process_exit": res["rc"],
+                 "cache_solver": bool(c.get("cache")), "solver_threads": c.get("threads"), "stale_read": c.get("stale"), "implementation": obs, "process_exit": res["rc"],
                  "json_exit": (res["json"] or {}).get("exitcode"), "log_tail": res["log_tail"][-700:]}
         # a stuck path whose synchronous solve raises (not a ShutdownError): outside the Coq model, see PARTIAL
         stuck_raises = any(k == "stuck" and c["replies"][str(j)] == "sat_badmodel" for j, k in enumerate(paths))
         # spec vs implementation
         ok_label = obs["label"] == want
         ok_exit = (res["rc"] != 0) == (want != "PASS") and (res["json"] or {}).get("exitcode") == res["rc"] and (obs["code"] == 0) == (want == "PASS")
-        if not (ok_label and ok_exit):
+        mr_all = (cache_runs if c.get("cache") else model_runs).get(ci, {})
+        if consistent and not (ok_label and ok_exit):
             nbad += 1
             f8 = (c.get("ee") and want == "FAIL" and obs["label"] == "ERROR" and obs["code"] == 5 and "stuck" in paths and "ShutdownError" in res["log_tail"])
             f8b = (not f8 and want == "FAIL" and obs["label"] == "ERROR" and obs["code"] == 5 and stuck_raises and "Error" in res["log_tail"])
             sig = {"defect": "shutdown-error-escapes-stuck-solve"} if f8 else {"observable": "verdict", "spec": want, "implementation": obs["label"]}
             if f8b:
-                mr = model_runs.get(ci, {})
+                mr = mr_all
                 if m and not any(v[0] == 2 for v in mr.values()):
                     rep.fail("broken-tie", f"implementation raised out of run_test but no model schedule does, on {short}", case=short)
                 report_failing_input(rep, f"verdict {obs['label']} (exit code {obs['code']}) where the property demands FAIL: {paths} {c['replies']}", short, {"defect": "stuck-solve-exception-escapes"})
             elif f8:
                 # must also be what the model predicts for the stale-read schedule
-                mr = model_runs.get(ci, {})
+                mr = mr_all
                 if m and not any(v[0] == 2 for v in mr.values()):
                     rep.fail("broken-tie", f"implementation raised ShutdownError out of run_test but no model schedule does, on {short}", case=short)
                 report_failing_input(rep, f"--early-exit: verdict {obs['label']} (exit code {obs['code']}) where the property demands FAIL: {paths} {c['replies']}", short, sig)
@@ -674,10 +939,10 @@ def run(rep, tier):
             # the forced schedule was supposed to exhibit the defect; a FAIL here means the code no longer has it
             rep.coverage["stale_read_case_without_defect"] = rep.coverage.get("stale_read_case_without_defect", 0) + 1
         # model vs implementation
-        mr = model_runs.get(ci)
+        mr = mr_all or None
         if mr is None:
             continue
-        late = mr["late"]
+        late = mr["seq/late" if c.get("cache") else "late"]
         allowed = {(LABELS[v[1]], v[2]) for v in mr.values() if v[0] in (1, 2)}
         if late[0] not in (1, 2):
             rep.fail("broken-tie", f"model did not finish on the canonical schedule for {short}: {late}", case=short)
@@ -685,20 +950,26 @@ def run(rep, tier):
         if (obs["label"], obs["code"]) not in allowed:
             rep.fail("broken-tie", f"implementation {(obs['label'], obs['code'])} not among the model's results {sorted(allowed)} on {short}", case=short)
             continue
-        if not c.get("ee") and late[0] == 1:
+        if not c.get("ee") and late[0] == 1 and (not c.get("cache") or consistent or c.get("threads") == 1):
             mo = {"normal": late[3], "nstuck": late[4], "num_models": late[5]}
             io = {k: obs[k] for k in mo}
             if mo != io:
                 rep.fail("broken-tie", f"path counters differ: implementation {io}, model {mo} on {short}", case=short)
+        if c.get("cache") and c.get("threads") == 1 and not c.get("ee") and late[0] == 1:
+            # which queries never reached the solver: exactly those the model answers from the shared core list
+            asked = sorted({int(q[0].split("/")[1].split(".")[0]) for q in res["calls"] if q[2] == "start" and ".refined" not in q[0]})
+            hits = sorted(late[13:13 + late[12]])
+            want_asked = sorted(j for j, k in enumerate(paths) if (k in POTENTIAL or k == "stuck") and j not in hits)
+            rep.count("cache_hits", len(hits))
+            if asked != want_asked:
+                rep.fail("broken-tie", f"queries sent to the solver {asked}; the model answers {hits} from the cache and sends {want_asked} on {short}", case=short)
 
     if n_inconclusive > max(3, len(cases) // 10):
         rep.fail("broken-tie", f"{n_inconclusive} of {len(cases)} end-to-end runs were inconclusive (solver processes starved); the tie did not really run", case={"inconclusive": n_inconclusive})
     rep.coverage["inconclusive_runs"] = n_inconclusive
 
+    _lap("X4")
     # ---------------- X5 several tests, setUp failure, nothing selected
-    multi = gen_multi(tier, r)
-    with ThreadPoolExecutor(workers) as ex:
-        mresults = list(ex.map(run_case, multi))
     for c, res in zip(multi, mresults):
         tests = c["tests"]
         if res.get("inconclusive"):
@@ -730,6 +1001,7 @@ def run(rep, tier):
             if me != [res["rc"]]:
                 rep.fail("broken-tie", f"process exit code {res['rc']}, model main_exit {me} on {short}", case=short)
 
+    _lap("X5")
     rep.coverage["traces_validated_against_impl"] = len(cases) + len(multi) if m else 0
     rep.coverage["end_to_end_runs"] = len(cases) + len(multi)
     rep.coverage["retries"] = sum(1 for x in results + mresults if x.get("attempt"))
@@ -740,9 +1012,12 @@ def run(rep, tier):
         assumptions=ASSUMPTIONS,
         partial=PARTIAL,
         rule="X1: stdout strings (corpus of boundary strings + random token strings) through SolverOutput.from_result, non-trivial when the text contains a sat/unsat/unknown token; "
-             "X2: all (shutdown flag x future outcome) pairs through _get_solver_output; X3: real solve_end_to_end / solve_low_level against the scripted solver as a subprocess for every reply kind x refinement x cache hit x timeout; "
+             "X2: all (shutdown flag x future outcome) pairs through _get_solver_output; X2b: check_unsat_cores on corpus + random (ids, cached cores) and the real _solve_end_to_end_callback on "
+             "(shutdown x result class x core None/empty/non-empty): what ends up in the shared core list; X3: real solve_end_to_end / solve_low_level against the scripted solver as a subprocess for every reply kind x refinement x cache hit x timeout; "
              "X4: end-to-end halmos runs on fabricated projects: 1-4 paths with kinds {success, revert, panic, failflag, stuck} x scripted reply kinds {sat, sat(non-zero exit), sat(no model), sat(abstract model), sat(unparsable model), unsat, unsat(non-zero exit), unsat\\r\\n, unknown, timeout, garbage, empty, crash} x completion order (per-query delays) x --early-exit x --cache-solver, "
-             "corpus (every verdict arm, every fault class, all precedence pairs in both orders, refinement, early exit, forced stale read) first, then seeded random; non-trivial when at least one solver query is involved; compared: printed status, TestResult.exitcode, MainResult.exitcode, process exit code, and (without --early-exit) normal / stuck / model counters; "
+             "under --cache-solver also the core printed with `unsat` (all names, a prefix shared with the other queries, the empty list, no list) x {one solver thread: answers consumed in submission order, default threads with delays: all queries started first}, "
+             "including scripts where the solver does not honour its own core (then only model vs implementation: verdict, counters and the set of queries that reached the solver); "
+             "corpus (every verdict arm, every fault class, all precedence pairs in both orders, refinement, early exit, forced stale read, empty / shared-prefix cores next to sat/unknown/crash answers in both submission orders) first, then seeded random; non-trivial when at least one solver query is involved; compared: printed status, TestResult.exitcode, MainResult.exitcode, process exit code, and (without --early-exit) normal / stuck / model counters; "
              "X5: two tests with different scripted verdicts, failing setUp, no test selected: process exit code. Distinct by hash of the case.",
     )
 
@@ -752,11 +1027,16 @@ def replay(rep, body):
         case = f.get("case") or {}
         if "paths" in case and "replies" in case:
             c = {"paths": case["paths"], "replies": case["replies"], "delays": case.get("delays") or {}, "refined": case.get("refined") or {},
-                 "ee": case.get("early_exit"), "cache": case.get("cache_solver"), "stale": case.get("stale_read"), "mul": bool(case.get("refined"))}
+                 "ee": case.get("early_exit"), "cache": case.get("cache_solver"), "stale": case.get("stale_read"), "mul": bool(case.get("refined")),
+                 "threads": case.get("solver_threads")}
             res = run_case(c)
             print("case          :", json.dumps(c))
             print("implementation:", impl_obs(c, res), "process exit", res["rc"])
             print(res["log_tail"])
         elif case.get("tie") == "from_result":
             print("implementation:", impl_from_result([case["stdout"]]), "spec:", spec_first_line(case["stdout"]))
+        elif case.get("tie") == "check_unsat_cores":
+            print("implementation:", impl_check_unsat_cores([(case["ids"], case["cores"])]), "contains a cached core:", any(set(c0) <= set(case["ids"]) for c0 in case["cores"]))
+        elif case.get("tie") == "callback-append":
+            print("shared core list after the callback:", impl_callback_append([(case["shutdown"], case["result"], case["core"])]))
     return 0
